@@ -276,6 +276,25 @@ def frag_extend(b, rng):
         b.extend(ref(k), by=SEC)
 
 
+def frag_heartbeat(b, rng):
+    """a worker keeps its lease alive: the SAME extend (same lease, same duration) again and again, each before the deadline the previous
+    one gave; every one of them moves the deadline; another worker polling meanwhile gets nothing until the last deadline has passed"""
+    b.tags.add("heartbeat")
+    b.enqueue()
+    ttl = rng.choice([2 * SEC, 5 * SEC])
+    by = rng.choice([2 * SEC, 5 * SEC, 30 * SEC])
+    k = b.dequeue(ttl=ttl)
+    n = rng.choice([2, 3, 4])
+    for _ in range(n):
+        b.tick(rng.choice([MS, SEC]))
+        b.extend(ref(k), by=by)
+        b.dequeue(expect=0)                    # a second worker: nothing to get while the lease is live
+    b.tick(ttl + (n - 1) * by)                 # past the first deadlines, still before the deadline the last extend gave
+    b.dequeue(expect=0)
+    b.tick(by + SEC)
+    b.dequeue(expect=1)
+
+
 def frag_batch(b, rng):
     """batch calls: duplicates, blank ids, padded ids, unknown ids, stale ids, re-sent batches, size limit"""
     b.tags.add("batch")
@@ -538,7 +557,7 @@ def batch_call(b, rng, kind, leases):
 
 
 FRAGS = [(frag_dup_ack, 16), (frag_released, 14), (frag_cancel_requeue, 12), (frag_nack_dup, 12), (frag_nack_dead, 6),
-         (frag_extend, 8), (frag_batch, 14), (frag_batch_stale_retry, 10), (frag_batch_shape, 5), (frag_raw, 4), (frag_capacity, 7), (frag_down, 4), (frag_down_retry, 9),
+         (frag_extend, 8), (frag_heartbeat, 8), (frag_batch, 14), (frag_batch_stale_retry, 10), (frag_batch_shape, 5), (frag_raw, 4), (frag_capacity, 7), (frag_down, 4), (frag_down_retry, 9),
          (frag_clamps, 8), (frag_clock, 5)]
 
 
@@ -1083,12 +1102,16 @@ def run_jobs(ctx, hbin, jobs):
     return json.loads(out)
 
 
-def run(ctx, info, rng, *_):
+def run(ctx, info, rng, *_, only=None, count=None):
     t_start = ctx.wall()
     n = 30 if ctx.tier == "quick" else 600
-    hs = [gen_history(rng, only=f) for f, _ in FRAGS] + [gen_history(rng) for _ in range(n)]
-    for d in load_corpus():
-        hs.insert(0, d)
+    if only is not None:
+        # a single family (used by other properties' checks: C03 runs the heartbeat family)
+        hs = [gen_history(rng, only=only) for _ in range(count or 8)]
+    else:
+        hs = [gen_history(rng, only=f) for f, _ in FRAGS] + [gen_history(rng) for _ in range(n)]
+        for d in load_corpus():
+            hs.insert(0, d)
     frag = {"pull_part": "pull layer: recentLeaseOps idempotent answer, status mapping (Model/PullOps.v)"}
     stats = {k: 0 for k in ("single_calls", "batch_calls", "current_calls", "stale_calls", "stale_success", "idempotent_answers",
                             "ttl_edge_inside", "ttl_edge_at", "twin_but_refused", "shape_errors", "batch_current_ids", "batch_stale_success_ids")}
